@@ -202,7 +202,12 @@ func (g *G) heredoc() *Heredoc {
 	h := &Heredoc{Dash: g.p(1, 3)}
 	base := pickS(g, []string{"E", "EOF", "終", "END_1", "-E"})
 	h.DelimText = base
-	switch g.n(7) {
+	k := g.n(7)
+	if g.p(1, 12) {
+		// the empty delimiter (<<'' or <<""): an empty line ends the body
+		base, h.DelimText, k = "", "", g.n(2)
+	}
+	switch k {
 	case 6:
 		// escapes inside a double-quoted delimiter are removed as well: "E\"\$F" stands for E"$F
 		h.DelimText = base + `"$` + "F"
@@ -240,7 +245,7 @@ func (g *G) heredoc() *Heredoc {
 			case 0:
 				s = base + " x" // delimiter + suffix
 			case 1:
-				s = string([]rune(base)[:1]) // prefix of the delimiter (or the whole of a one-rune one: fixed below)
+				s = string([]rune(base + "_")[:1]) // prefix of the delimiter (or the whole of a one-rune one: fixed below)
 			case 2:
 				s = " " + base // delimiter with a leading blank
 			case 3:
